@@ -8,6 +8,7 @@ Line protocol of the C18 model (one s-expression in, one out):
   (rules)                                            ->  (NAME ...)        the rules the model knows
   (proof (CMD ...))                                  ->  (ok (TERM ...) TERM WK) | (reject ERR)   last sequent of
                                                          `validate(is_eval=True)`; WK = the run with the wellKinded test agrees
+  (refl (TERM) ((VAR TERM) ...))                     ->  (ok (TERM ...) TERM T) | (reject ERR)   verit_refl with its context
   (la Z|Q (LIT ...) (NUM ...))                       ->  T | F             la_generic / la_tautology accepts?
 TERM = (v n) | (k c) | (c TERM TERM);  HYPS = (TERM ...);  WK = T | F (`wellKinded`)
 CMD = (assume TERM) | (step RULE (TERM ...) (NAT ...) (NAT ...))     premises = positions of earlier commands
@@ -161,6 +162,15 @@ def handle (line : String) : String :=
         | none => "(reject empty)"
       | .error e => toString (Sexp.list [.atom "reject", .atom (errTo e)])
     | none => "bad-op"
+  | some (.list [.atom "refl", cl, ctx]) =>
+    match tmsOf cl, (do (← ctx.toList?).mapM (fun p => match p with
+        | .list [a, b] => do some ((← tmOf a), (← tmOf b))
+        | _ => none)) with
+    | some c, some cx =>
+      match reflRule c cx with
+      | .ok s => toString (Sexp.list [.atom "ok", .list (s.hyps.map tmTo), tmTo s.prop, Sexp.ofBool true])
+      | .error e => toString (Sexp.list [.atom "reject", .atom (errTo e)])
+    | _, _ => "bad-op"
   | some (.list (.atom "arith" :: rest)) =>
     match arithOp rest with
     | some b => toString (Sexp.ofBool b)
